@@ -49,6 +49,13 @@ func (h *Sources) Save() {
 	// The state we are on (the one undo stopped at) is not an undone one.
 	if line.pos > 0 {
 		line.items = line.items[:len(line.items)-line.pos+1]
+
+		// And it is the line as it is now when nothing has changed it since:
+		// saving it a second time would make redo stop twice on the same text.
+		if last := len(line.items) - 1; last >= 0 && line.items[last].line == string(*h.line) {
+			line.items[last].pos = h.cursor.Pos()
+			return
+		}
 	}
 
 	// Make a copy of the cursor and ensure its position.
